@@ -277,9 +277,43 @@ func (w verifWT) WriteTo(dst io.Writer) (int64, error) {
 		}
 		_, err := dst.Write(w.data[h:])
 		return int64(len(w.data)), err
+	case 4: // the data source fails part way (disk error, broken safetensors): WriteGGUF must not report success
+		n, _ := dst.Write(w.data[:len(w.data)/2])
+		return int64(n), errVerifSource
 	default:
 		_, err := dst.Write(w.data)
 		return []int64{int64(len(w.data)), 0, 0, int64(len(w.data)) + 7}[w.mode], err
+	}
+}
+
+var errVerifSource = fmt.Errorf("verif: tensor data source failed")
+
+// verifC05FailingSource: a file whose i-th tensor source fails must make WriteGGUF return an error (a writer that
+// swallows it leaves a short file behind a nil result: decoded locations outside the file, end offset != length).
+func verifC05FailingSource(out *zzverif.Out, dir string, kvs []verifKV, ts []verifTensor, bad int) {
+	kv := KV{}
+	for _, e := range kvs {
+		kv[e.key] = e.val
+	}
+	gts := make([]Tensor, len(ts))
+	for i, t := range ts {
+		mode := 0
+		if i == bad {
+			mode = 4
+		}
+		gts[i] = Tensor{Name: t.name, Kind: t.kind, Shape: t.shape, WriterTo: verifWT{t.data, mode}}
+	}
+	f, err := os.Create(filepath.Join(dir, "c05-fail.gguf"))
+	if err != nil {
+		panic(err)
+	}
+	defer os.Remove(f.Name())
+	defer f.Close()
+	out.Count("failing_source_cases")
+	if err := WriteGGUF(f, kv, gts); err == nil {
+		st, _ := f.Stat()
+		out.L2("source-error-swallowed", fmt.Sprintf("gguf-failsrc %d ", bad)+verifKVLine(kvs)+" "+verifTensorLine(ts),
+			fmt.Sprintf("the source of tensor #%d (%q) failed after %d of %d bytes, WriteGGUF returned nil and left a file of %d bytes", bad, ts[bad].name, len(ts[bad].data)/2, len(ts[bad].data), st.Size()))
 	}
 }
 
@@ -456,6 +490,9 @@ func TestVerifC05(t *testing.T) {
 		ts := verifGenTensors(r)
 		maxArray := zzverif.Pick(r, []int{0, 0, -1, 3})
 		verifC05Case(out, dir, kvs, ts, maxArray)
+		if len(ts) > 0 && r.Chance(1, 8) {
+			verifC05FailingSource(out, dir, kvs, ts, r.Intn(len(ts)))
+		}
 	}
 }
 
